@@ -12,7 +12,7 @@ import sys
 import time
 import hashlib
 from dataclasses import dataclass, field
-from typing import Any, Dict, Iterable, List, Optional, Tuple
+from typing import Any, Dict, Iterable, List, Optional, Set, Tuple
 
 VERIF = os.path.dirname(os.path.dirname(os.path.abspath(__file__)))
 
@@ -477,6 +477,398 @@ def forward_single_use_temps(tree: ast.AST) -> ast.AST:
     return _ForwardTemps().visit(tree)
 
 
+# --------------------------------------------------------------------------
+# locals that only name an attribute of self
+# --------------------------------------------------------------------------
+def _self_chain(e: ast.AST) -> Optional[List[str]]:
+    """['a', 'b'] for self.a.b (attribute links only), else None"""
+    parts = []
+    while isinstance(e, ast.Attribute):
+        parts.append(e.attr)
+        e = e.value
+    if isinstance(e, ast.Name) and e.id == "self" and parts:
+        return parts[::-1]
+    return None
+
+
+def self_attr_aliases(tree: ast.Module, props: Set[str]) -> ast.AST:
+    """Inside a method, `x = self.a` (x bound once, `a` a plain data attribute - not a property anywhere in the
+    package) followed by reads of x is the same as reading `self.a` each time, provided nothing between the binding
+    and the last read can rebind `self.a`: no attribute store on that chain, no call of a method of the class whose
+    (transitive, name-resolved) stores include `a`, no call that is handed `self`.  Symmetrically `self.a = x` (x a
+    once-bound local) followed by reads of x reads `self.a`.  Both spellings then look the same to every rule."""
+    for cls in [n for n in ast.walk(tree) if isinstance(n, ast.ClassDef)]:
+        methods = {m.name: m for m in cls.body if isinstance(m, (ast.FunctionDef, ast.AsyncFunctionDef))}
+        stores: Dict[str, Set[str]] = {}
+        calls: Dict[str, Set[str]] = {}
+        for nm, m in methods.items():
+            st, ca = set(), set()
+            for x in ast.walk(m):
+                if isinstance(x, ast.Attribute) and isinstance(x.ctx, (ast.Store, ast.Del)):
+                    ch = _self_chain(x)
+                    if ch:
+                        st.add(ch[0])
+                if isinstance(x, ast.Call) and isinstance(x.func, ast.Attribute) and isinstance(x.func.value, ast.Name) and x.func.value.id == "self":
+                    ca.add(x.func.attr)
+                if isinstance(x, ast.Call) and call_name_(x) in ("setattr", "delattr"):
+                    st.add("*")
+                if isinstance(x, ast.Attribute) and x.attr == "__dict__":
+                    st.add("*")
+            stores[nm], calls[nm] = st, ca
+        has_setattr = "__setattr__" in methods
+
+        def may_store(mname: str, seen=None) -> Optional[Set[str]]:
+            """attributes of self a call of self.<mname>() may rebind; None = unknown"""
+            seen = seen if seen is not None else set()
+            if mname in seen:
+                return set()
+            seen.add(mname)
+            if mname not in methods:
+                return None
+            out = set(stores[mname])
+            for c in calls[mname]:
+                sub = may_store(c, seen)
+                if sub is None:
+                    if c in props:
+                        continue
+                    return None
+                out |= sub
+            return out
+
+        for m in methods.values():
+            args = m.args.posonlyargs + m.args.args
+            if not args or args[0].arg != "self":
+                continue
+            _alias_in_method(m, props, may_store, has_setattr)
+    return tree
+
+
+def call_name_(c: ast.Call) -> str:
+    f = c.func
+    return f.attr if isinstance(f, ast.Attribute) else (f.id if isinstance(f, ast.Name) else "")
+
+
+def _npos(n: ast.AST) -> Tuple[float, int]:
+    return (getattr(n, "lineno", 0), getattr(n, "col_offset", 0))
+
+
+def _alias_in_method(m: ast.AST, props: Set[str], may_store, has_setattr: bool):
+    import copy as _c
+    for _round in range(8):
+        nested = {id(y) for x in ast.walk(m) if x is not m and isinstance(x, (ast.FunctionDef, ast.AsyncFunctionDef, ast.Lambda, ast.ClassDef))
+                  for y in ast.walk(x) if y is not x}
+        nodes = [x for x in ast.walk(m)]
+        params = {a.arg for a in m.args.posonlyargs + m.args.args + m.args.kwonlyargs}
+        n_store: Dict[str, int] = {}
+        for x in nodes:
+            if isinstance(x, ast.Name) and isinstance(x.ctx, (ast.Store, ast.Del)):
+                n_store[x.id] = n_store.get(x.id, 0) + 1
+            if isinstance(x, (ast.Global, ast.Nonlocal)):
+                return
+        pm: Dict[int, ast.AST] = {}
+        for x in nodes:
+            for ch in ast.iter_child_nodes(x):
+                pm[id(ch)] = x
+
+        def loops_of(n):
+            out = []
+            while id(n) in pm:
+                n = pm[id(n)]
+                if isinstance(n, (ast.For, ast.While, ast.AsyncFor)):
+                    out.append(n)
+            return out
+
+        def end_npos(n):
+            return max((_npos(y) for y in ast.walk(n) if hasattr(y, "lineno")), default=_npos(n))
+
+        def hazards(lo, hi, attr0: str, skip: ast.AST) -> bool:
+            for x in nodes:
+                if any(x is y for y in ast.walk(skip)):
+                    continue
+                p = _npos(x)
+                if not (lo < p <= hi):
+                    continue
+                if isinstance(x, ast.Attribute) and isinstance(x.ctx, (ast.Store, ast.Del)):
+                    ch = _self_chain(x)
+                    if ch and ch[0] == attr0:
+                        return True
+                if isinstance(x, ast.Call):
+                    f = x.func
+                    if isinstance(f, ast.Attribute) and isinstance(f.value, ast.Name) and f.value.id == "self":
+                        ms = may_store(f.attr)
+                        if ms is None or attr0 in ms or "*" in ms:
+                            return True
+                    if any(isinstance(a, ast.Name) and a.id == "self" for a in list(x.args) + [k.value for k in x.keywords]):
+                        return True
+                    if call_name_(x) in ("setattr", "delattr", "exec", "eval"):
+                        return True
+                if isinstance(x, (ast.Yield, ast.YieldFrom, ast.Await)):
+                    return True
+            return False
+
+        done = False
+        for st in nodes:
+            if id(st) in nested or not (isinstance(st, ast.Assign) and len(st.targets) == 1):
+                continue
+            tgt, val = st.targets[0], st.value
+            # form 1: x = self.a.b
+            if isinstance(tgt, ast.Name) and tgt.id not in params and n_store.get(tgt.id) == 1:
+                ch = _self_chain(val)
+                if ch and not any(a in props for a in ch):
+                    x = tgt.id
+                    uses = [u for u in nodes if isinstance(u, ast.Name) and u.id == x and isinstance(u.ctx, ast.Load)]
+                    if not uses or any(id(u) in nested for u in uses) or any(_npos(u) <= _npos(st) for u in uses):
+                        continue
+                    hi = max(_npos(u) for u in uses)
+                    for u in uses:
+                        for lp in loops_of(u):
+                            if not any(st is y for y in ast.walk(lp)):
+                                hi = max(hi, end_npos(lp))
+                    if loops_of(st) and any(not any(u is y for y in ast.walk(loops_of(st)[0])) for u in uses):
+                        continue
+                    if hazards(_npos(st), hi, ch[0], st):
+                        continue
+                    for u in uses:
+                        par = pm[id(u)]
+                        new = ast.copy_location(_c.deepcopy(val), u)
+                        for y in ast.walk(new):
+                            if hasattr(y, "lineno"):
+                                y.lineno, y.col_offset = u.lineno, u.col_offset
+                        _swap_child(par, u, new)
+                    _drop_stmt(m, st)
+                    done = True
+                    break
+            # form 2: self.a = x
+            if isinstance(tgt, ast.Attribute) and isinstance(val, ast.Name) and not has_setattr:
+                ch = _self_chain(tgt)
+                x = val.id
+                if ch and len(ch) == 1 and ch[0] not in props and x not in params and n_store.get(x) == 1:
+                    uses = [u for u in nodes if isinstance(u, ast.Name) and u.id == x and isinstance(u.ctx, ast.Load)
+                            and u is not val and _npos(u) > _npos(st)]
+                    if not uses or any(id(u) in nested for u in uses):
+                        continue
+                    if loops_of(st) != [] or any(loops_of(u) for u in uses):
+                        continue
+                    hi = max(_npos(u) for u in uses)
+                    if hazards(_npos(val), hi, ch[0], st):
+                        continue
+                    for u in uses:
+                        par = pm[id(u)]
+                        new = ast.copy_location(ast.Attribute(ast.Name("self", ast.Load()), ch[0], ast.Load()), u)
+                        new.value.lineno, new.value.col_offset = u.lineno, u.col_offset
+                        _swap_child(par, u, new)
+                    done = True
+                    break
+        if not done:
+            return
+
+
+def _swap_child(par: ast.AST, old: ast.AST, new: ast.AST):
+    for fld, v in ast.iter_fields(par):
+        if v is old:
+            setattr(par, fld, new)
+            return
+        if isinstance(v, list):
+            for j, y in enumerate(v):
+                if y is old:
+                    v[j] = new
+                    return
+
+
+def _drop_stmt(root: ast.AST, st: ast.stmt):
+    for x in ast.walk(root):
+        for fld in ("body", "orelse", "finalbody"):
+            b = getattr(x, fld, None)
+            if isinstance(b, list) and any(y is st for y in b):
+                b[:] = [y for y in b if y is not st] or [ast.copy_location(ast.Pass(), st)]
+                return
+
+
+# --------------------------------------------------------------------------
+# y = x with both names bound once: y is x
+# --------------------------------------------------------------------------
+def copy_names(tree: ast.AST) -> ast.AST:
+    """`y = x` where x is a parameter or local of the function that is bound exactly once and y is a local bound
+    exactly once (both outside loops, or in the same block): every read of y reads x.  The copy is dropped and y is
+    written x (helper inlining leaves such copies behind: `atoms, table = atoms_h, table_h`)."""
+    for fn in [n for n in ast.walk(tree) if isinstance(n, (ast.FunctionDef, ast.AsyncFunctionDef))]:
+        for _round in range(12):
+            own = [x for x in ast.walk(fn)]
+            inner = {id(y) for x in own if x is not fn and isinstance(x, (ast.FunctionDef, ast.AsyncFunctionDef, ast.Lambda, ast.ClassDef))
+                     for y in ast.walk(x)}
+            if any(isinstance(x, (ast.Global, ast.Nonlocal)) for x in own):
+                break
+            params = {a.arg for a in fn.args.posonlyargs + fn.args.args + fn.args.kwonlyargs}
+            if fn.args.vararg:
+                params.add(fn.args.vararg.arg)
+            if fn.args.kwarg:
+                params.add(fn.args.kwarg.arg)
+            n_store: Dict[str, int] = {}
+            for x in own:
+                if isinstance(x, ast.Name) and isinstance(x.ctx, (ast.Store, ast.Del)):
+                    n_store[x.id] = n_store.get(x.id, 0) + 1
+                if isinstance(x, ast.ExceptHandler) and x.name:
+                    n_store[x.name] = n_store.get(x.name, 0) + 2
+            pm: Dict[int, ast.AST] = {}
+            for x in own:
+                for ch in ast.iter_child_nodes(x):
+                    pm[id(ch)] = x
+
+            def in_loop(n):
+                while id(n) in pm:
+                    n = pm[id(n)]
+                    if isinstance(n, (ast.For, ast.While, ast.AsyncFor, ast.ListComp, ast.SetComp, ast.DictComp, ast.GeneratorExp)):
+                        return n
+                    if n is fn:
+                        return None
+                return None
+            hit = None
+            for st in own:
+                if id(st) in inner or not (isinstance(st, ast.Assign) and len(st.targets) == 1 and isinstance(st.targets[0], ast.Name)
+                                           and isinstance(st.value, ast.Name)):
+                    continue
+                y, x = st.targets[0].id, st.value.id
+                if y == x or y in params or n_store.get(y) != 1:
+                    continue
+                if not ((x in params and n_store.get(x, 0) == 0) or (x not in params and n_store.get(x) == 1)):
+                    continue
+                if any(isinstance(u, ast.Name) and u.id in (x, y) and id(u) in inner for u in own):
+                    continue
+                lp = in_loop(st)
+                if lp is not None:
+                    xdef = [u for u in own if isinstance(u, ast.Name) and u.id == x and isinstance(u.ctx, ast.Store)]
+                    if x in params or not xdef or in_loop(xdef[0]) is not lp:
+                        continue
+                    if any(isinstance(u, ast.Name) and u.id == y and isinstance(u.ctx, ast.Load) and not any(u is z for z in ast.walk(lp)) for u in own):
+                        continue
+                hit = (st, y, x)
+                break
+            if hit is None:
+                break
+            st, y, x = hit
+            for u in own:
+                if isinstance(u, ast.Name) and u.id == y and isinstance(u.ctx, ast.Load):
+                    u.id = x
+            _drop_stmt(fn, st)
+    return tree
+
+
+def package_properties(trees: Iterable[ast.AST]) -> Set[str]:
+    """names that are properties / descriptors / methods somewhere in the package: reading them may compute"""
+    out: Set[str] = set()
+    for t in trees:
+        for c in ast.walk(t):
+            if isinstance(c, ast.ClassDef):
+                for m in c.body:
+                    if isinstance(m, (ast.FunctionDef, ast.AsyncFunctionDef)):
+                        out.add(m.name)
+    return out
+
+
+# --------------------------------------------------------------------------
+# single-exit value returns -> one return per branch
+# --------------------------------------------------------------------------
+class _SinkReturns(ast.NodeTransformer):
+    """`if a: x, y = A, B  elif b: x, y = C, D  else: x, y = E, F` followed by `return x, y` is written
+    `if a: return A, B  elif b: return C, D  else: return E, F`: only when the names the return reads are assigned at
+    the very end of *every* fall-through branch (so each copy of the return can be written without them; the order of
+    evaluation is kept: the assigned expressions appear in the return in assignment order, or are call-free) and are
+    not used by a nested function."""
+    def visit_FunctionDef(self, node):
+        self.generic_visit(node)
+        nested_names = {x.id for n in ast.walk(node) if n is not node and isinstance(n, (ast.FunctionDef, ast.AsyncFunctionDef, ast.Lambda))
+                        for x in ast.walk(n) if isinstance(x, ast.Name)}
+        self._block(node.body, nested_names)
+        return node
+    visit_AsyncFunctionDef = visit_FunctionDef
+
+    def _block(self, body, nested_names):
+        for st in body:
+            for fld in ("body", "orelse", "finalbody"):
+                b = getattr(st, fld, None)
+                if isinstance(b, list) and b and isinstance(b[0], ast.stmt) and not isinstance(st, (ast.FunctionDef, ast.AsyncFunctionDef, ast.ClassDef)):
+                    self._block(b, nested_names)
+            if isinstance(st, ast.Try):
+                for h in st.handlers:
+                    self._block(h.body, nested_names)
+        if len(body) < 2 or not isinstance(body[-1], ast.Return) or body[-1].value is None or not isinstance(body[-2], ast.If):
+            return
+        ret, ifn = body[-1], body[-2]
+        names = [x.id for x in ast.walk(ret.value) if isinstance(x, ast.Name) and isinstance(x.ctx, ast.Load)]
+        if not names or len(set(names)) != len(names) or set(names) & nested_names:
+            return
+        if not all(isinstance(x, (ast.Name, ast.Tuple, ast.List, ast.Load, ast.Constant)) for x in ast.walk(ret.value)):
+            return
+        leaves = []
+        if not self._leaves(ifn, leaves):
+            return
+        plans = []
+        for blk in leaves:
+            plan = self._plan(blk, names)
+            if plan is None:
+                return
+            plans.append((blk, plan))
+        import copy as _c
+        for blk, plan in plans:
+            k = len(plan)
+            vals = {}
+            for st_ in blk[len(blk) - k:]:
+                vals[st_.targets[0].id] = st_.value
+
+            class Sub(ast.NodeTransformer):
+                def visit_Name(self, x):
+                    return ast.copy_location(vals[x.id], x) if isinstance(x.ctx, ast.Load) and x.id in vals else x
+            new_ret = ast.copy_location(ast.Return(Sub().visit(_c.deepcopy(ret.value))), blk[-1])
+            del blk[len(blk) - k:]
+            blk.append(new_ret)
+        del body[-1]
+
+    def _leaves(self, ifn, out) -> bool:
+        for blk in (ifn.body, ifn.orelse):
+            if not blk:
+                return False                      # an if without else falls through with nothing assigned
+            last = blk[-1]
+            if isinstance(last, (ast.Raise,)):
+                continue
+            if isinstance(last, (ast.Return, ast.Continue, ast.Break)):
+                return False
+            if isinstance(last, ast.If):
+                if not self._leaves(last, out):
+                    return False
+                continue
+            out.append(blk)
+        return True
+
+    def _plan(self, blk, names):
+        """the trailing assignments of the block that bind exactly `names` (each once), or None"""
+        want = list(names)
+        got = []
+        i = len(blk) - 1
+        while i >= 0 and len(got) < len(want):
+            st = blk[i]
+            if not (isinstance(st, ast.Assign) and len(st.targets) == 1 and isinstance(st.targets[0], ast.Name) and st.targets[0].id in want
+                    and st.targets[0].id not in got):
+                return None
+            got.append(st.targets[0].id)
+            i -= 1
+        if sorted(got) != sorted(want):
+            return None
+        tail = blk[len(blk) - len(want):]
+        order = [st.targets[0].id for st in tail]
+        # a later assignment must not read an earlier target (it would have to be substituted too)
+        for j, st in enumerate(tail):
+            if any(isinstance(x, ast.Name) and x.id in order[:j] for x in ast.walk(st.value)):
+                return None
+        has_call = [any(isinstance(x, (ast.Call, ast.Await, ast.Yield, ast.YieldFrom)) for x in ast.walk(st.value)) for st in tail]
+        if sum(has_call) > 1 and order != names:
+            return None
+        return tail
+
+
+def sink_returns(tree: ast.AST) -> ast.AST:
+    return ast.fix_missing_locations(_SinkReturns().visit(tree))
+
+
 def _ends_with(body, kinds) -> bool:
     return bool(body) and isinstance(body[-1], kinds) and not (isinstance(body[-1], ast.Return) and body[-1].value is not None)
 
@@ -595,6 +987,13 @@ class _NumpyIdioms(ast.NodeTransformer):
                     c.args = [x.left]
         return node
 
+    def visit_Attribute(self, node):
+        self.generic_visit(node)
+        if node.attr == "size" and isinstance(node.ctx, ast.Load) and isinstance(node.value, ast.Call) \
+                and (self._is_np(node.value.func, "unique") or self._is_np(node.value.func, "union1d")) and not node.value.keywords:
+            return self.visit_Call(ast.copy_location(ast.Call(ast.Name("len", ast.Load()), [node.value], []), node))
+        return node
+
     def _square_of(self, e):
         if isinstance(e, ast.BinOp) and isinstance(e.op, ast.Pow) and isinstance(e.right, ast.Constant) and e.right.value == 2:
             return e.left
@@ -631,6 +1030,29 @@ class _NumpyIdioms(ast.NodeTransformer):
                 if node.args and isinstance(node.args[0], ast.Tuple):
                     node.args = list(node.args[0].elts)
                 return node
+        # reductions: with an axis -> method form X.min(axis=k); without -> function form np.argmin(X); sums -> np.sum(X, ...)
+        for nm in ("min", "max", "argmin", "argmax", "amin", "amax"):
+            if self._is_np(f, nm) and node.args and (len(node.args) == 2 or any(k.arg == "axis" for k in node.keywords)) \
+                    and not any(isinstance(a, ast.Starred) for a in node.args):
+                kws = list(node.keywords)
+                if len(node.args) == 2:
+                    kws = [ast.keyword("axis", node.args[1])] + kws
+                return ast.copy_location(ast.Call(ast.Attribute(node.args[0], nm.replace("amin", "min").replace("amax", "max"), ast.Load()), [], kws), node)
+        if isinstance(f, ast.Attribute) and f.attr in ("argmin", "argmax") and not self._is_np(f, f.attr) and not node.args and not node.keywords:
+            return ast.copy_location(ast.Call(self._np(f.attr), [f.value], []), node)
+        if isinstance(f, ast.Attribute) and f.attr == "sum" and not self._is_np(f, "sum") \
+                and not (isinstance(f.value, ast.Name) and f.value.id in (self.np, "math")) \
+                and not any(isinstance(a, ast.Starred) for a in node.args):
+            return ast.copy_location(ast.Call(self._np("sum"), [f.value] + node.args, node.keywords), node)
+        # number of distinct entries of an index vector: np.unique(A).size, len(np.unique(A)) -> len(set(A));
+        # np.union1d(A, B).size, len(np.union1d(A, B)) -> len(set(A).union(B))
+        cnt = None
+        if isinstance(f, ast.Name) and f.id == "len" and len(node.args) == 1 and nokw:
+            cnt = node.args[0]
+        if isinstance(cnt, ast.Call) and self._is_np(cnt.func, "unique") and len(cnt.args) == 1 and not cnt.keywords:
+            return ast.copy_location(ast.Call(ast.Name("len", ast.Load()), [ast.Call(ast.Name("set", ast.Load()), [cnt.args[0]], [])], []), node)
+        if isinstance(cnt, ast.Call) and self._is_np(cnt.func, "union1d") and len(cnt.args) == 2 and not cnt.keywords:
+            return ast.copy_location(ast.Call(ast.Name("len", ast.Load()), [ast.Call(ast.Attribute(ast.Call(ast.Name("set", ast.Load()), [cnt.args[0]], []), "union", ast.Load()), [cnt.args[1]], [])], []), node)
         if isinstance(f, ast.Attribute) and f.attr in ("any", "all") and not self._is_np(f, f.attr) and not node.args and not node.keywords \
                 and not isinstance(f.value, ast.Compare):
             # x.any() / x.all() on an array -> np.any(x) / np.all(x)
@@ -799,6 +1221,19 @@ class _Literals(ast.NodeTransformer):
             if isinstance(node.ops[0], ast.NotIn):
                 out = ast.UnaryOp(ast.Not(), out)
             return ast.copy_location(out, node)
+        # `X in (1, 2)` with integer constants and a pure X (or len(pure)) -> `X == 1 or X == 2`
+        lf = node.left
+        pure_left = _pure_chain(lf) or (isinstance(lf, ast.Call) and isinstance(lf.func, ast.Name) and lf.func.id == "len"
+                                        and len(lf.args) == 1 and not lf.keywords and _pure_chain(lf.args[0]))
+        if len(node.ops) == 1 and isinstance(node.ops[0], (ast.In, ast.NotIn)) and pure_left \
+                and isinstance(node.comparators[0], (ast.Tuple, ast.List, ast.Set)) and 1 <= len(node.comparators[0].elts) <= 4 \
+                and all(isinstance(e, ast.Constant) and isinstance(e.value, int) and not isinstance(e.value, bool) for e in node.comparators[0].elts):
+            import copy as _c
+            cmps = [ast.Compare(_c.deepcopy(lf), [ast.Eq()], [e]) for e in node.comparators[0].elts]
+            out = cmps[0] if len(cmps) == 1 else ast.BoolOp(ast.Or(), cmps)
+            if isinstance(node.ops[0], ast.NotIn):
+                out = ast.UnaryOp(ast.Not(), out)
+            return ast.copy_location(out, node)
         return node
 
     def visit_Call(self, node):
@@ -810,6 +1245,12 @@ class _Literals(ast.NodeTransformer):
             return ast.copy_location(ast.Lambda(
                 ast.arguments(posonlyargs=[], args=[ast.arg("x")], kwonlyargs=[], kw_defaults=[], defaults=[]),
                 ast.Subscript(ast.Name("x", ast.Load()), node.args[0], ast.Load())), node)
+        # dict.fromkeys(X) / dict.fromkeys(X, K) with a constant K -> {k_: K for k_ in X}
+        if isinstance(f, ast.Attribute) and f.attr == "fromkeys" and isinstance(f.value, ast.Name) and f.value.id == "dict" \
+                and len(node.args) in (1, 2) and not node.keywords and (len(node.args) == 1 or isinstance(node.args[1], ast.Constant)):
+            val = node.args[1] if len(node.args) == 2 else ast.Constant(None)
+            return ast.copy_location(ast.DictComp(ast.Name("name", ast.Load()), val,
+                                                  [ast.comprehension(ast.Name("name", ast.Store()), node.args[0], [], 0)]), node)
         return node
 
     def visit_AnnAssign(self, node):
@@ -836,6 +1277,45 @@ class _Literals(ast.NodeTransformer):
                 if isinstance(a.value, (ast.List, ast.ListComp)) or src is not a.value:
                     a.value = ast.copy_location(ast.Call(ast.Name("sorted", ast.Load()), [src], nx.value.keywords), a.value)
                     merged.append(a)
+                    i += 2
+                    continue
+            merged.append(a)
+            i += 1
+        body = merged
+        # `yield from X` as a statement (its value unused) -> `for item_ in X: yield item_` (the generators of this
+        # package are only ever iterated: no send / throw / generator return value)
+        merged = []
+        for a in body:
+            if isinstance(a, ast.Expr) and isinstance(a.value, ast.YieldFrom):
+                y = ast.copy_location(ast.Expr(ast.copy_location(ast.Yield(ast.Name("item_", ast.Load())), a)), a)
+                merged.append(ast.copy_location(ast.For(ast.Name("item_", ast.Store()), a.value.value, [y], [], None), a))
+            else:
+                merged.append(a)
+        body = merged
+        # default-then-override: `x = A; if C: x = B` (no else; A a constant or a plain name, or an attribute chain when
+        # C is call-free)  ->  `if C[x:=A]: x = B else: x = A`
+        merged = []
+        i = 0
+        while i < len(body):
+            a = body[i]
+            nx = body[i + 1] if i + 1 < len(body) else None
+            if isinstance(a, ast.Assign) and len(a.targets) == 1 and isinstance(a.targets[0], ast.Name) and isinstance(nx, ast.If) \
+                    and not nx.orelse and len(nx.body) == 1 and isinstance(nx.body[0], ast.Assign) and len(nx.body[0].targets) == 1 \
+                    and isinstance(nx.body[0].targets[0], ast.Name) and nx.body[0].targets[0].id == a.targets[0].id:
+                x = a.targets[0].id
+                A = a.value
+                simple = isinstance(A, (ast.Constant, ast.Name))
+                chain_ = _pure_chain(A) and not any(isinstance(y, (ast.Call, ast.NamedExpr, ast.Await, ast.Yield, ast.YieldFrom)) for y in ast.walk(nx.test))
+                reads_x_in_B = any(isinstance(y, ast.Name) and y.id == x for y in ast.walk(nx.body[0].value))
+                walrus = any(isinstance(y, ast.NamedExpr) for y in ast.walk(nx.test))
+                if (simple or chain_) and not reads_x_in_B and not walrus and not (isinstance(A, ast.Name) and A.id == x):
+                    import copy as _c
+
+                    class S(ast.NodeTransformer):
+                        def visit_Name(self, y):
+                            return ast.copy_location(_c.deepcopy(A), y) if y.id == x and isinstance(y.ctx, ast.Load) else y
+                    new_if = ast.copy_location(ast.If(S().visit(_c.deepcopy(nx.test)), nx.body, [a]), nx)
+                    merged.append(new_if)
                     i += 2
                     continue
             merged.append(a)
@@ -901,6 +1381,121 @@ class _Literals(ast.NodeTransformer):
 
 def literal_forms(tree: ast.AST) -> ast.AST:
     return ast.fix_missing_locations(_Literals().visit(tree))
+
+
+class _ChainLoops(ast.NodeTransformer):
+    """A loop over a lazily flattened generator is the loop nest it abbreviates:
+
+        for x in chain.from_iterable(E for m in S if C): BODY          ->  for m in S:
+                                                                               if C:
+                                                                                   for x in E: BODY
+        for i, x in enumerate(chain.from_iterable(...), start=K): BODY ->  i = K ; the nest above with `i += 1` at the
+                                                                           end of BODY
+    (the generator may be bound once to a local used only there).  Exact: the generator is consumed lazily, so E is
+    evaluated for an element of S when the previous element's items are exhausted - the order of the nest.  Not
+    rewritten when BODY contains `continue` (the counter form) or the loop has an else clause."""
+    def visit_FunctionDef(self, node):
+        self.generic_visit(node)
+        gens = {}
+        loads = {}
+        for x in ast.walk(node):
+            if isinstance(x, ast.Name) and isinstance(x.ctx, ast.Load):
+                loads[x.id] = loads.get(x.id, 0) + 1
+        stores = {}
+        for x in ast.walk(node):
+            if isinstance(x, ast.Name) and isinstance(x.ctx, (ast.Store, ast.Del)):
+                stores[x.id] = stores.get(x.id, 0) + 1
+        for x in ast.walk(node):
+            if isinstance(x, ast.Assign) and len(x.targets) == 1 and isinstance(x.targets[0], ast.Name) and isinstance(x.value, ast.GeneratorExp) \
+                    and stores.get(x.targets[0].id) == 1 and loads.get(x.targets[0].id) == 1:
+                gens[x.targets[0].id] = x
+        used = []
+
+        flats = {}
+        for x in ast.walk(node):
+            if isinstance(x, ast.Assign) and len(x.targets) == 1 and isinstance(x.targets[0], ast.Name) and isinstance(x.value, ast.Call) \
+                    and isinstance(x.value.func, ast.Attribute) and x.value.func.attr == "from_iterable" \
+                    and stores.get(x.targets[0].id) == 1 and loads.get(x.targets[0].id) == 1:
+                flats[x.targets[0].id] = x
+
+        def flat_source(it, via=None):
+            if isinstance(it, ast.Name) and it.id in flats and via is None:
+                g, bound = flat_source(flats[it.id].value, via=flats[it.id])
+                return g, ([b for b in (bound if isinstance(bound, list) else [bound]) if b is not None] + [flats[it.id]]) if g is not None else None
+            if isinstance(it, ast.Call) and isinstance(it.func, ast.Attribute) and it.func.attr == "from_iterable" and len(it.args) == 1 \
+                    and not it.keywords and norm(it.func.value) in ("chain", "itertools.chain"):
+                g = it.args[0]
+                if isinstance(g, ast.Name) and g.id in gens:
+                    return gens[g.id].value, gens[g.id]
+                if isinstance(g, ast.GeneratorExp):
+                    return g, None
+                if _pure_chain(g) and not (isinstance(g, ast.Name) and (stores.get(g.id, 0) > 1)):
+                    # a plain sequence of sequences: for seq_ in S: for x in seq_
+                    return ast.GeneratorExp(ast.Name("seq_", ast.Load()), [ast.comprehension(ast.Name("seq_", ast.Store()), g, [], 0)]), None
+            return None, None
+
+        def rewrite(body):
+            out = []
+            for st in body:
+                for fld in ("body", "orelse", "finalbody"):
+                    b = getattr(st, fld, None)
+                    if isinstance(b, list) and b and isinstance(b[0], ast.stmt):
+                        setattr(st, fld, rewrite(b))
+                if isinstance(st, ast.Try):
+                    for h in st.handlers:
+                        h.body = rewrite(h.body)
+                if not (isinstance(st, ast.For) and not st.orelse):
+                    out.append(st)
+                    continue
+                it, counter, start = st.iter, None, None
+                if isinstance(it, ast.Call) and isinstance(it.func, ast.Name) and it.func.id == "enumerate" and it.args \
+                        and isinstance(st.target, ast.Tuple) and len(st.target.elts) == 2 and isinstance(st.target.elts[0], ast.Name):
+                    start = ast.Constant(0)
+                    if len(it.args) == 2:
+                        start = it.args[1]
+                    for k in it.keywords:
+                        if k.arg == "start":
+                            start = k.value
+                    counter = st.target.elts[0].id
+                    it = it.args[0]
+                g, bound = flat_source(it)
+                if g is None:
+                    out.append(st)
+                    continue
+                has_continue = any(isinstance(x, ast.Continue) for b in st.body for x in ast.walk(b))
+                inside = sum(1 for b in st.body for x in ast.walk(b) if isinstance(x, ast.Name) and x.id == counter and isinstance(x.ctx, ast.Load))
+                if counter is not None and (has_continue or not isinstance(start, ast.Constant) or inside != loads.get(counter, 0)
+                                            or stores.get(counter, 0) != 1):
+                    out.append(st)
+                    continue
+                target = st.target.elts[1] if counter is not None else st.target
+                inner_body = list(st.body)
+                if counter is not None:
+                    inner_body.append(ast.copy_location(ast.AugAssign(ast.Name(counter, ast.Store()), ast.Add(), ast.Constant(1)), st.body[-1]))
+                cur = ast.copy_location(ast.For(target, g.elt, inner_body, [], None), st)
+                for comp in reversed(g.generators):
+                    blk = [cur]
+                    for c in reversed(comp.ifs):
+                        blk = [ast.copy_location(ast.If(c, blk, []), st)]
+                    cur = ast.copy_location(ast.For(comp.target, comp.iter, blk, [], None), st)
+                if counter is not None:
+                    out.append(ast.copy_location(ast.Assign([ast.Name(counter, ast.Store())], start), st))
+                out.append(cur)
+                if bound is not None:
+                    used.extend(bound if isinstance(bound, list) else [bound])
+            return out
+        node.body = rewrite(node.body)
+        if used:
+            class Drop(ast.NodeTransformer):
+                def visit_Assign(self, x):
+                    return None if any(x is u for u in used) else x
+            Drop().visit(node)
+        return node
+    visit_AsyncFunctionDef = visit_FunctionDef
+
+
+def chain_loops(tree: ast.AST) -> ast.AST:
+    return ast.fix_missing_locations(_ChainLoops().visit(tree))
 
 
 def _dotted(e: ast.AST) -> bool:
@@ -1233,12 +1828,14 @@ class Repo:
                     raise AnalysisError("cannot parse %s: %s" % (rel, exc))
         from .inline import inline_new_helpers, known_functions, undo_renames
         self.renamed = undo_renames({mod: v[3] for mod, v in raw.items()})
+        props = package_properties(v[3] for v in raw.values())
         for mod, (path, rel, src, tree) in raw.items():
-            tree = items_loops(literal_forms(paired_names(numpy_idioms(function_aliases(compiled_regexes(strip_inert(tree)))))))
+            tree = items_loops(chain_loops(literal_forms(paired_names(numpy_idioms(function_aliases(compiled_regexes(strip_inert(tree))))))))
             tree, inl, skipped = inline_new_helpers(tree, mod, known_functions())
             if inl:
                 self.inlined[mod] = sorted(set(inl))
-            tree = orient_comparisons(inline_adjacent_temps(forward_single_use_temps(structure_guards(orient_comparisons(tree)))))
+                tree = copy_names(literal_forms(forward_single_use_temps(tree)))
+            tree = orient_comparisons(inline_adjacent_temps(forward_single_use_temps(self_attr_aliases(structure_guards(orient_comparisons(sink_returns(tree))), props))))
             self.modules[mod] = Module(mod, path, rel, src, tree)
         if not self.modules:
             raise AnalysisError("no modules parsed under %s" % pkg_dir)
